@@ -458,6 +458,7 @@ func c13DeepCopyCoverage(c *core.Ctx, r *c13roles, rule string) {
 				c.Check(okHash, rule, core.FuncKey(f)+" computes hash", w.Pos, "hash = f(json.Marshal(deepCopy(decl)))", "the hash is not computed from the JSON encoding of the declaration's deep copy")
 				if okHash {
 					hashKeyInjective(c, call.Call.StaticCallee(), rule)
+					hashCopyUnmodified(c, call.Call.StaticCallee(), r, rule)
 				}
 			}
 		}
@@ -481,6 +482,38 @@ func marshalsDeepCopy(f *ssa.Function, r *c13roles) bool {
 		}
 	}
 	return false
+}
+
+// hashCopyUnmodified: the hash covers a field only if the encoded copy still carries it. Between deepCopy and
+// json.Marshal the copy must not be written (seed C13-9 cleared keep_empty_or_null on the copy "because it does not
+// take part in the value": two declarations differing only in it then share a cache entry).
+func hashCopyUnmodified(c *core.Ctx, f *ssa.Function, r *c13roles, rule string) {
+	for _, ci := range core.Calls(f) {
+		if !core.IsCallTo(ci, "encoding/json", "Marshal") {
+			continue
+		}
+		arg := core.Unwrap(ci.Common().Args[0], true)
+		call, ok := arg.(*ssa.Call)
+		if !ok {
+			continue
+		}
+		bad := token.NoPos
+		what := ""
+		for _, w := range core.Writes(f) {
+			if w.Root == ssa.Value(call) {
+				bad = w.Pos
+				if w.Field != nil {
+					what = w.Field.Name()
+				}
+			}
+		}
+		key := core.FuncKey(f) + " encodes the deep copy unmodified"
+		if bad.IsValid() {
+			c.Bad(rule, key, bad, "the deep copy is modified (field "+what+") before it is encoded: the hash no longer covers that field, so two declarations differing only in it share a hash and are served each other's cached values")
+		} else {
+			c.OK(rule, key, core.InstrPos(ci), "no store into the copy between deepCopy and json.Marshal")
+		}
+	}
 }
 
 // hashKeyInjective: equal hashes must mean equal encodings. Inside the hashing function every key used with the
